@@ -78,4 +78,21 @@ theorem off_never_upgrades (c : Agent.Cfg) (r : Agent.Req) (h : c.mode = .off) :
   intro q hq
   exact ((Agent.C10.afterExec_inv c r).1 q hq) h
 
+/-- Nothing remembers a dropped upgrade request: whether the dispatcher queues the upgrade of
+    an upgradeable login depends ONLY on the free space of the queue at that moment — not on
+    what happened to earlier requests of the same user. Whenever there is space (in particular
+    on an otherwise idle agent) the request is queued. -/
+theorem upgrade_queued_whenever_space (c : Agent.Cfg) (s : Agent.St) (r : Agent.Req)
+    (hm : c.mode = .localNonBlocking) (hpc : s.pc = .sendUpgrade r) (hlen : s.qUpdate.length < c.capUpdate) :
+    ∃ t, Agent.next c s .upgradeSend = some t ∧ t.qUpdate = s.qUpdate ++ [Agent.upgradeReq] := by
+  simp [Agent.next, hpc, hm, hlen]
+
+/-- … and when there is none it is dropped without blocking and without any other effect than
+    moving on: the state afterwards differs from the state before only in the program counter. -/
+theorem dropped_upgrade_leaves_no_trace (c : Agent.Cfg) (s t : Agent.St) (r : Agent.Req)
+    (hm : c.mode = .localNonBlocking) (hpc : s.pc = .sendUpgrade r) (hfull : ¬ s.qUpdate.length < c.capUpdate)
+    (h : Agent.next c s .upgradeSend = some t) : t = { s with pc := Agent.respondOrSelect r } := by
+  simp [Agent.next, hpc, hm, hfull] at h
+  exact h.symm
+
 end Whawty.Store.C12
